@@ -2,6 +2,7 @@ package rules
 
 import (
 	"go/ast"
+	"go/token"
 	"go/types"
 	"strings"
 
@@ -286,6 +287,9 @@ func c17Serve(c *core.Ctx) {
 		c.Check(ok, "R-C17-3", cons+"|forwards to SetMaxCount", pos(c, at),
 			"SetMaxCount(int64(n)) with n the parameter",
 			"SetMaxConnection does not hand its parameter to Semaphore.SetMaxCount: a run-time change of maxConnections is not applied")
+		if ok {
+			c17SetMaxPaths(c, f, cons)
+		}
 	}
 }
 
@@ -524,4 +528,164 @@ func c17Reload(c *core.Ctx) {
 	c.Check(ok, "R-C17-3", cons, pos(c, at),
 		sprintf("all %d exits: SetMaxConnection(nextSpec.MaxConnections) on runtime.limitListener, or no listener yet, or nil next spec, or restart with the new spec", n),
 		why, witness(badSt)...)
+}
+
+// c17SetMaxPaths: every exit of SetMaxConnection has forwarded the parameter to SetMaxCount, or
+// returned early because the parameter equals a cached field that is kept in sync: compared before
+// it is stored on that path, stored from the parameter on every forwarding path, and written nowhere
+// else except consistently with the semaphore's initial capacity in the constructor literal.
+func c17SetMaxPaths(c *core.Ctx, f *flow.Func, cons string) {
+	key := cons + "|forwards on every path"
+	isP := func(e ast.Expr) bool {
+		v, ok := c17Obj(f, c17StripConv(f, e)).(*types.Var)
+		return ok && isParam(f, v)
+	}
+	type cmp struct {
+		e   *ast.BinaryExpr
+		fld *types.Var
+	}
+	var cmps []cmp
+	ast.Inspect(f.Body, func(n ast.Node) bool {
+		be, ok := n.(*ast.BinaryExpr)
+		if !ok || (be.Op != token.EQL && be.Op != token.NEQ) {
+			return true
+		}
+		switch {
+		case isP(be.X) && c17Field(f, c17StripConv(f, be.Y)) != nil:
+			cmps = append(cmps, cmp{be, c17Field(f, c17StripConv(f, be.Y))})
+		case isP(be.Y) && c17Field(f, c17StripConv(f, be.X)) != nil:
+			cmps = append(cmps, cmp{be, c17Field(f, c17StripConv(f, be.X))})
+		}
+		return true
+	})
+	const evFwd = "ev:c17:forwarded"
+	sync := func(fld *types.Var) string { return "ev:c17:cache-stored:" + fld.Name() }
+	res := analyze(c, f, flow.Config{NoHavoc: true,
+		OnCall: func(st *flow.State, call *ast.CallExpr, callee types.Object, deferred bool) {
+			if c17IsSemCall(f, call, "SetMaxCount") && len(call.Args) == 1 && isP(call.Args[0]) {
+				st.Set(evFwd, flow.True)
+			}
+		},
+		OnNode: func(st *flow.State, n ast.Node) {
+			as, ok := n.(*ast.AssignStmt)
+			if !ok {
+				return
+			}
+			for i, l := range as.Lhs {
+				if fld := c17Field(f, l); fld != nil {
+					if len(as.Lhs) == len(as.Rhs) && as.Tok == token.ASSIGN && isP(as.Rhs[i]) {
+						st.Set(sync(fld), flow.True)
+					} else {
+						st.Set(sync(fld), flow.False)
+					}
+				}
+			}
+		}})
+	if res == nil {
+		return
+	}
+	var bad *flow.State
+	var badAt ast.Node
+	why := ""
+	shortcut := map[*types.Var]bool{}
+	nFwd := 0
+	for _, ex := range res.Exits {
+		st := ex.State
+		if st.Is(evFwd, flow.True) {
+			nFwd++
+			continue
+		}
+		var via *types.Var
+		for _, cm := range cmps {
+			t := c17Truth(f, st, cm.e)
+			if (cm.e.Op == token.EQL && t == flow.True) || (cm.e.Op == token.NEQ && t == flow.False) {
+				via = cm.fld
+			}
+		}
+		switch {
+		case via == nil:
+			if bad == nil {
+				bad, badAt, why = st, ex.At, "SetMaxConnection can return without forwarding its parameter to Semaphore.SetMaxCount (and not because the value is known to be unchanged): the run-time change of maxConnections is silently dropped on that path"
+			}
+		case st.Get(sync(via)) != flow.Unknown:
+			if bad == nil {
+				bad, badAt, why = st, ex.At, "the 'unchanged' shortcut compares the parameter with "+via.Name()+" after "+via.Name()+" has been overwritten on the same path: the comparison says nothing about the capacity actually applied"
+			}
+		default:
+			shortcut[via] = true
+		}
+	}
+	for fld := range shortcut {
+		for _, ex := range res.Exits {
+			if ex.State.Is(evFwd, flow.True) && !ex.State.Is(sync(fld), flow.True) && bad == nil {
+				bad, badAt = ex.State, ex.At
+				why = "SetMaxConnection skips the resize when the parameter equals " + fld.Name() + ", but a path that applies a new limit does not store it in " + fld.Name() + ": the cached value goes stale, so a later change back to the stale value (e.g. 2 -> 5 -> 2) is skipped and the semaphore keeps the previous, larger capacity - more than maxConnections connections are accepted"
+			}
+		}
+		// writes elsewhere in the package
+		pkg := c.Prog.Pkg(c17LL)
+		for _, file := range pkg.Syntax {
+			for _, d := range file.Decls {
+				fd, ok := d.(*ast.FuncDecl)
+				if !ok || fd.Body == nil || ast.Node(fd) == f.Node {
+					continue
+				}
+				g := flow.NewFunc(pkg, fd)
+				ast.Inspect(fd.Body, func(n ast.Node) bool {
+					switch x := n.(type) {
+					case *ast.AssignStmt:
+						for _, l := range x.Lhs {
+							if c17Field(g, l) == fld && bad == nil {
+								bad, badAt, why = nil, x, "the cached limit "+fld.Name()+" used by SetMaxConnection's 'unchanged' shortcut is also written in "+fd.Name.Name+": it need not equal the capacity applied to the semaphore"
+							}
+						}
+					case *ast.IncDecStmt:
+						if c17Field(g, x.X) == fld && bad == nil {
+							bad, badAt, why = nil, x, "the cached limit "+fld.Name()+" is modified in "+fd.Name.Name
+						}
+					case *ast.CompositeLit:
+						tv := g.Info.Types[x]
+						if tv.Type == nil || tv.Type.String() != Mod+c17LL+".LimitListener" {
+							return true
+						}
+						var semArg, cached string
+						for _, el := range x.Elts {
+							kv, ok := el.(*ast.KeyValueExpr)
+							if !ok {
+								continue
+							}
+							id, _ := kv.Key.(*ast.Ident)
+							if id == nil {
+								continue
+							}
+							if g.Info.Uses[id] == types.Object(fld) {
+								cached = g.Render(c17StripConv(g, kv.Value))
+							}
+							if call, ok := ast.Unparen(kv.Value).(*ast.CallExpr); ok && len(call.Args) == 1 {
+								if fo := c17CalleeFunc(g, call); fo != nil && fo.FullName() == Mod+c17Sem+".NewSem" {
+									semArg = g.Render(c17StripConv(g, call.Args[0]))
+								}
+							}
+						}
+						if (cached == "" || cached != semArg) && bad == nil {
+							bad, badAt, why = nil, x, "the constructor does not initialise the cached limit "+fld.Name()+" with the capacity handed to NewSem: SetMaxConnection's 'unchanged' shortcut compares against a value that is not the applied capacity"
+						}
+					}
+					return true
+				})
+			}
+		}
+	}
+	if nFwd == 0 && bad == nil {
+		why = "no exit of SetMaxConnection forwards the parameter"
+		badAt = f.Body
+	}
+	c.Check(why == "", "R-C17-3", key, pos(c, func() ast.Node {
+		if badAt != nil {
+			return badAt
+		}
+		return f.Body
+	}()),
+		sprintf("%d exits: all forward the parameter to SetMaxCount (or skip only against a cached limit that is kept in sync)", len(res.Exits)),
+		why, witness(bad)...)
 }
